@@ -88,7 +88,8 @@ C19Verdict(R) ==
   ELSE IF ~R.fick.chk.ok THEN "analysis-raised"
   ELSE IF ~R.fick.chk.find_ok THEN "malformed-finding"
   ELSE IF ~R.fick.chk.json_ok THEN "report-not-json"
-  ELSE IF ~R.fick.chk.sevname_ok THEN "report-severity-differs" ELSE "ok"
+  ELSE IF ~R.fick.chk.sevname_ok THEN "report-severity-differs"
+  ELSE IF R.fick.chk.loader_ran /\ ~R.fick.chk.loader_ok THEN R.fick.chk.loader_why ELSE "ok"
 
 C09TVerdict(R) ==
   IF ~R.fick.trace.ran THEN "na"
